@@ -266,7 +266,8 @@ MANIFEST = dict(
           'neither. The closure built by get_crt_callback runs before-list, every subscriber callback, after-list in that order '
           '(verified by invoking the real closure symbolically). Path downloads receive into the temp file and get the rename '
           'handler before the subscribers; the handler renames on success, removes on error, removes and fails the transfer '
-          'on a failing rename. _shutdown waits on the done-callbacks event of every tracked transfer last, on every path.'),
+          'on a failing rename. _shutdown waits on the done-callbacks event of every tracked transfer last, on every path.'
+          ' get_make_request_args hands every request a fresh, empty before-list (mutable default arguments are modelled as shared objects); a construction error is what the future will raise.'),
     note=('A-CRT: the CRT client calls on_done exactly once per created request; subscriber callbacks do not raise inside the '
           'composed CRT callback (unguarded in the code: noted assumption); awscrt itself is not installed and not modelled.'),
     technique='contract-based deductive verification over the AST of crt.py (module not importable here)',
